@@ -83,8 +83,11 @@ THEOREMS = [
     "Spydr.Eblif.header_inout",
     "Spydr.Eblif.conn_alias_closed_form",
     "Spydr.Eblif.written_joins_are_net",
+    "Spydr.Eblif.eblif_roundtrip_any_order",
+    "Spydr.Eblif.fragFull_in",
+    "Spydr.Eblif.fragAny_in",
 ]
-MODULES = ["Spydr.Eblif.Props.C18", "Spydr.Eblif.Props.C18RoundTrip", "Spydr.Eblif.Props.C18ReadOk", "Spydr.Eblif.Props.C18Ports", "Spydr.Eblif.Props.C18BlackBox", "Spydr.Eblif.Props.C18FullParse", "Spydr.Eblif.Props.C18GenDefs", "Spydr.Eblif.Props.C18Mirror", "Spydr.Eblif.Props.C18Full"]
+MODULES = ["Spydr.Eblif.Props.C18", "Spydr.Eblif.Props.C18RoundTrip", "Spydr.Eblif.Props.C18ReadOk", "Spydr.Eblif.Props.C18Ports", "Spydr.Eblif.Props.C18BlackBox", "Spydr.Eblif.Props.C18FullParse", "Spydr.Eblif.Props.C18GenDefs", "Spydr.Eblif.Props.C18Mirror", "Spydr.Eblif.Props.C18Full", "Spydr.Eblif.Props.C18Any", "Spydr.Eblif.FragCheck"]
 
 FINDING = {
     "blackbox-ports": "eblif.blackbox-pins-keep-wire-of-removed-cable",
@@ -391,9 +394,27 @@ def shrink(design, sig, drv, tmp, opts, budget=40):
     return cur
 
 
+def theorem_reach(res, text, drv, opts, texts):
+    """evidence only: is the netlist read from `text` inside the hypotheses of the round-trip
+    theorems (evaluated by the Lean driver, per option pair), and if not, which hypothesis fails
+    first; `@2nd` = the same question for the netlist read from the composed text (second generation)"""
+    for (wb, wc) in opts:
+        for suffix, t in (("", text), ("@2nd", texts.get("wb%d.wc%d" % (wb, wc)))):
+            if t is None:
+                continue
+            try:
+                r = drv.ask({"fn": "frag", "text": t, "wb": wb, "wc": wc})
+            except Exception:
+                r = {}
+            res.dist("theorem_fragment:eblif_roundtrip_any_order%s:%s" % (suffix, r.get("any", "out:driver-error")))
+            res.dist("theorem_fragment:eblif_roundtrip_full%s:%s" % (suffix, r.get("full", "out:driver-error")))
+            res.dist("theorem_fragment:eblif_roundtrip_subckt_total%s:%s" % (suffix, r.get("subckt", "out:driver-error")))
+
+
 def run_case(res, design, text, drv, tmp, opts, origin, do_shrink=True):
     texts = {}
     recs, obs1 = pipeline(design, text, drv, tmp, opts, texts)
+    theorem_reach(res, text, drv, opts, texts)
     att = attribute(design, recs, drv, tmp, opts, obs1, texts) if recs else []
     x = {"origin": origin, "design": design, "text": text, "opts": [list(o) for o in opts]}
     seen = set()
@@ -574,9 +595,10 @@ def run(ctx):
         "not part of the round-trip comparison (not in C18's list)",
     ]
     ctx.partial_notes = [
-        "the round trip is proved for the .subckt/.gate fragment (eblif_roundtrip_subckt_total: the second read provably succeeds "
-        "when written .cnames are pairwise different); .names/.latch instances, .conn lines and INOUT ports are covered "
-        "by the correspondence check only (see docs/eblif.md)",
+        "the round trip is proved in total form for the whole writer output of flat designs, any statement order "
+        "(eblif_roundtrip_any_order; eblif_roundtrip_full is the order-preserving case); the share of the tested cases "
+        "inside its hypotheses is counted in input_distribution (theorem_fragment:*); hierarchical designs, EBLIF.other and "
+        "odd index syntax are covered by the correspondence check only (see docs/eblif.md)",
     ]
     if not ok:
         return
